@@ -150,6 +150,8 @@ def raw_cases():
     for sp in SPECIALS:
         for conv in (True, False):
             yield {"raw": True, "sp": sp, "convert": conv}
+            # the same texts handed over as ONE string instead of a list of lines
+            yield {"raw": True, "sp": sp, "convert": conv, "single_str": True}
     for conv in (True, False):
         yield {"whole": NUMERIC_LOOKING, "convert": conv}
 
@@ -159,10 +161,12 @@ def raw_recipe(case):
     t = lambda s: sp + s
     cols = [{"name": t("n0"), "dtype": "str", "values": [t("c00"), t("c10")]}, {"name": t("n1"), "dtype": "str", "values": [t("c01"), t("c11")]}]
     hdr = "default" if case.get("auto_header") else [{"text": [t("h0"), t("h1")], "text_convert": conv}, {"text": [t("k0"), t("k1")], "text_convert": conv}]
+    # (one line only: a newline is a C0 control, outside this property; its conversion to a line break is C11's)
+    one = (lambda lines: lines[0]) if case.get("single_str") else (lambda lines: lines)
     return {"kind": "table", "page": {"nrow": 40}, "sections": [{"df": {"cols": cols}, "body": {"text_convert": conv}, "headers": hdr}],
-            "title": {"text": [t("T0"), t("T1")], "text_convert": conv}, "subline": {"text": [t("U0")], "text_convert": conv},
-            "footnote": {"text": [t("F0")], "as_table": True, "text_convert": conv}, "source": {"text": [t("S0")], "as_table": False, "text_convert": conv},
-            "page_header": {"text": [t("P0")], "text_convert": conv}, "page_footer": {"text": [t("Q0")], "text_convert": conv}}
+            "title": {"text": one([t("T0"), t("T1")]), "text_convert": conv}, "subline": {"text": one([t("U0")]), "text_convert": conv},
+            "footnote": {"text": one([t("F0")]), "as_table": True, "text_convert": conv}, "source": {"text": one([t("S0")]), "as_table": False, "text_convert": conv},
+            "page_header": {"text": one([t("P0")]), "text_convert": conv}, "page_footer": {"text": one([t("Q0")]), "text_convert": conv}}
 
 
 def check_raw(case, res):
@@ -175,9 +179,10 @@ def check_raw(case, res):
         paras = [b.text for b in blocks if isinstance(b, Para) and b.text]
         rows = [[c.text for c in b.cells] for b in blocks if isinstance(b, Row)]
         sec = rec["sections"][0]
-        want_paras = ["\n".join(rec["title"]["text"]), rec["subline"]["text"][0], rec["source"]["text"][0]]
+        txt = lambda v: v if isinstance(v, str) else "\n".join(v)
+        want_paras = [txt(rec["title"]["text"]), txt(rec["subline"]["text"]), txt(rec["source"]["text"])]
         hdr_rows = [[c["name"] for c in sec["df"]["cols"]]] if auto else [h["text"] for h in sec["headers"]]
-        want_rows = hdr_rows + R.expected_rows(sec) + [[rec["footnote"]["text"][0]]]
+        want_rows = hdr_rows + R.expected_rows(sec) + [[txt(rec["footnote"]["text"])]]
         where_rows = (["default_header"] if auto else ["explicit_header", "explicit_header_row2"]) + ["body_cell", "body_cell", "footnote_table"]
         if len(paras) != 3 or len(rows) != len(want_rows):
             res.fail("roundtrip", "raw/structure", f"{len(paras)} paragraphs, {len(rows)} rows for special {case['sp']!r}")
@@ -189,8 +194,8 @@ def check_raw(case, res):
                 compare(res, where + ("/first_cell" if k == 0 else "") + "/text_start", a, b)
         for name, lst in (("page_header", d.headers), ("page_footer", d.footers)):
             got = [b.text for bl in lst for b in bl if isinstance(b, Para) and b.text]
-            compare(res, name + "/text_start", rec[name]["text"][0], got[0] if got else "<missing>")
-    res.labels = ["raw_text_start", "convert=" + ("on" if case["convert"] else "off")]
+            compare(res, name + "/text_start", txt(rec[name]["text"]), got[0] if got else "<missing>")
+    res.labels = ["raw_text_start", "convert=" + ("on" if case["convert"] else "off"), "text_as_one_string" if case.get("single_str") else "text_as_list"]
     res.nontrivial = True
 
 
